@@ -106,6 +106,9 @@ func GenC20() *rapid.Generator[C20Case] {
 		if (c.Fault == "cancel" || c.Fault == "deadline") && c.Observer {
 			c.FaultAt = rapid.SampledFrom([]string{"", "", "start", "epoch", "finish"}).Draw(t, "fault at")
 		}
+		if (c.Fault == "cancel" || c.Fault == "deadline") && rapid.IntRange(0, 9).Draw(t, "context over at entry") == 0 {
+			c.FaultAt, c.FaultTrial, c.FaultGen = "entry", 0, 0 // the context is over before the run starts
+		}
 		if c.Generations > 0 && c.Trials > 0 && rapid.IntRange(0, 9).Draw(t, "run until solved") == 4 {
 			// "run until solved": the configured maximum is the largest int, every trial is solved early
 			for i := range c.SolvedAt {
@@ -346,6 +349,9 @@ func expectedTrace(c C20Case) (trace []protoEvent, complete bool) {
 	faultHere := func(at string, t, g int) bool {
 		return c.Fault != "none" && c.FaultAt == at && t == c.FaultTrial && (g == c.FaultGen || at == "start" || at == "finish")
 	}
+	if c.Fault != "none" && c.FaultAt == "entry" {
+		return nil, false
+	}
 	for t := 0; t < c.Trials; t++ {
 		if c.Observer {
 			trace = append(trace, protoEvent{kind: "start", trial: t, gen: -1})
@@ -457,7 +463,15 @@ func CheckC20(c C20Case, rec *Rec) error {
 		pcancel()
 		rec.Class("the experiment value was run once before")
 	}
-	err := exp.Execute(ctx, c.Genome.Build(), r, observer)
+	if c.Fault != "none" && c.FaultAt == "entry" {
+		r.faulted = true
+		cancel()
+	}
+	start := c.Genome.Build()
+	err := exp.Execute(ctx, start, r, observer)
+	if d := DiffSpec(c.Genome, Snapshot(start)); d != "" {
+		return fmt.Errorf("the run modified the start genome it spawns every trial's population from: %s", d)
+	}
 
 	want, complete := expectedTrace(c)
 	rec.Class("fault:" + c.Fault)
@@ -537,6 +551,27 @@ func CheckC20(c C20Case, rec *Rec) error {
 			}
 			seen[k] = true
 		}
+		// the trials completed before the fault are on record
+		if c.FaultAt != "entry" {
+			if len(exp.Trials) < c.FaultTrial {
+				return fmt.Errorf("%d trials were completed before the fault, the record holds %d", c.FaultTrial, len(exp.Trials))
+			}
+			for t := 0; t < c.FaultTrial; t++ {
+				tr := exp.Trials[t]
+				wantGens := c.Generations
+				if c.SolvedAt[t] >= 0 {
+					wantGens = c.SolvedAt[t] + 1
+				}
+				if tr.Id != t || len(tr.Generations) != wantGens {
+					return fmt.Errorf("trial %d was completed before the fault at (%d,%d); the record holds trial id %d with %d generations, %d were evaluated", t, c.FaultTrial, c.FaultGen, tr.Id, len(tr.Generations), wantGens)
+				}
+				for g, gen := range tr.Generations {
+					if gen.Id != g || gen.TrialId != t || gen.Solved != (c.SolvedAt[t] == g) {
+						return fmt.Errorf("trial %d (completed before the fault) generation %d recorded as (id %d, trial %d, solved %v)", t, g, gen.Id, gen.TrialId, gen.Solved)
+					}
+				}
+			}
+		}
 		switch c.Fault {
 		case "error":
 			if !errors.Is(err, errInjected) {
@@ -571,6 +606,19 @@ func CheckC20(c C20Case, rec *Rec) error {
 			}
 		}
 		return nil
+	}
+	// the population of the last trial, if that trial ended solved, is still the evaluated one (with or without an observer,
+	// also after the last notification)
+	if c.Trials > 0 && c.SolvedAt[c.Trials-1] >= 0 && r.pop != nil {
+		same := 0
+		for _, o := range r.pop.Organisms {
+			if r.lastOrgs[o] {
+				same++
+			}
+		}
+		if same != len(r.lastOrgs) || len(r.pop.Organisms) != len(r.lastOrgs) {
+			return fmt.Errorf("the last trial ended with a solved generation, but its population was turned over afterwards (%d of %d evaluated organisms left)", same, len(r.lastOrgs))
+		}
 	}
 	// recorded results
 	if len(exp.Trials) != c.Trials+c.ExtraSlots {
